@@ -99,6 +99,6 @@ void h_qltlv(void) {
         V_ASSERT(g_live_blocks == live0 || (newly_cached && g_live_blocks == live0 + 1 && ST->small_icon != 0), "C19: fetched name / hardware id released; at most the icon is kept, and then as the record's cache, after a QueryLargeTlv");
     }
     V_ASSERT(ST->see_list_count == in.st.n, "C07: QueryLargeTlv leaves recorded observations alone");
-    V_ASSERT((ST->small_icon == 0) ? (ST->small_icon_size == 0) : 1, "Inv: no icon size without icon");
+    V_ASSERT((ST->small_icon == 0) ? (ST->small_icon_size == 0) : 1, "C08,C09,C19: Inv: no icon size without icon");
     V_WITNESS("h_qltlv end");
 }
